@@ -79,6 +79,12 @@ class SchedStream(Stream):
         return json.dumps([c["sections"], c["runahead"], c["fcp"], c["seed"]], sort_keys=True)
 
     def classify(self, c, r, failure):
+        if "launched twice under the same submit number" in failure:
+            return "sched:C20:double-launch-after-crash"
+        if "custom output(s) lost by the crash" in failure:
+            return "sched:C20:uncommitted-custom-output-lost"
+        if "died during its first main-loop iteration" in failure:
+            return "sched:C20:crash-before-first-commit"
         return f"{self.name}:{failure.split(']')[0][1:]}:{failure.split(']')[-1].strip()[:60]}"
 
     def shrink(self, c):
